@@ -16,7 +16,12 @@
 //!        fields in travel order, MTU = min over traversed ASes and links of the topology, expiry =
 //!        earliest hop expiry, src/dst = request, no AS twice, no two paths with one interface list,
 //!        sorted by hop count, result independent of input order / duplication, and the set of interface
-//!        lists equals that of an independent enumerator of the SCION combination rules.
+//!        lists equals that of an independent enumerator of the SCION combination rules; the path offered
+//!        for an interface sequence expires as late as the latest-expiring combination of the given segments
+//!        over that sequence (C04:dedup-keeps-latest-expiry; the enumerator carries the hop-field lifetimes),
+//!        also when two given segments have the same id (two beaconings of one segment: `rebeacon` stream,
+//!        staler version listed first / last / shuffled; C04:order-independent:rebeaconed-segment,
+//!        C04:order-independent:latest-expiry compare interface lists + expiry across the orders).
 use std::collections::{BTreeMap, BTreeSet, HashMap, HashSet};
 use std::time::Instant;
 
@@ -1108,6 +1113,111 @@ fn twins(rng: &mut Rng, c: &Case) -> Case {
     c
 }
 
+/// "rebeacon" stream: two beaconings of the same segment.  A copy of a segment of a well-formed set that agrees
+/// with it on every AS, interface id, peer entry and MTU (the same links of the same topology: the set stays
+/// well-formed and keeps its topology) but was beaconed at another time: other timestamp, SegID, MACs and hop
+/// lifetimes.  In modes `later` / `longer` one version is staler in every hop field, in mode `mixed` hop by hop.
+/// Every base is listed in five orders: the staler version directly before / after the fresher one, all staler
+/// versions in front of / behind everything else, and shuffled.  The property quantifies over "all orders and
+/// duplications of the input segment lists": what is offered (interface sequences, each with the latest
+/// obtainable expiry) must be the same in all five.
+fn rebeacon(rng: &mut Rng, base: &Case) -> Vec<Case> {
+    let mode = rng.below(3);
+    let mode_name = ["later", "longer", "mixed"][mode as usize];
+    let all = rng.chance(2, 3);
+    // (staler, fresher) or (only version, None)
+    let pair = |rng: &mut Rng, s: &MSeg, force: bool| -> (MSeg, Option<MSeg>) {
+        if !(all || force || rng.chance(1, 2)) {
+            return (s.clone(), None);
+        }
+        let d = *rng.pick(&[1u32, 2, 60, 300, 337, 338, 3600, 43_200]);
+        // the copy is the fresher version unless the timestamp leaves no room below
+        let copy_fresh = s.ts < d || rng.chance(1, 2);
+        let mut c = s.clone();
+        c.ts = if copy_fresh { s.ts.saturating_add(d) } else { s.ts - d };
+        c.segid = rng.below(65536) as u16;
+        let k = rng.range(1, 40) as u8;
+        let life = |rng: &mut Rng, h: &mut MHop| {
+            h.mac = rng.bytes(6).try_into().unwrap();
+            h.exp = match mode {
+                0 => h.exp,
+                1 => if copy_fresh { h.exp.saturating_add(k) } else { h.exp.saturating_sub(k) },
+                _ => match rng.below(3) {
+                    0 => h.exp,
+                    1 => h.exp.saturating_add(rng.range(1, 40) as u8),
+                    _ => h.exp.saturating_sub(rng.range(1, 40) as u8),
+                },
+            };
+        };
+        for e in c.ents.iter_mut() {
+            life(rng, &mut e.hop);
+            for p in e.peers.iter_mut() {
+                life(rng, &mut p.hop);
+            }
+        }
+        if copy_fresh { (s.clone(), Some(c)) } else { (c, Some(s.clone())) }
+    };
+    let nc = base.cores.len();
+    let total = nc + base.noncores.len();
+    let forced = if total > 0 { rng.below(total as u64) as usize } else { usize::MAX };
+    let cores: Vec<(MSeg, Option<MSeg>)> = base.cores.iter().enumerate().map(|(i, s)| pair(rng, s, i == forced)).collect();
+    let noncores: Vec<(MSeg, Option<MSeg>)> = base.noncores.iter().enumerate().map(|(i, s)| pair(rng, s, nc + i == forced)).collect();
+    let lay = |ps: &[(MSeg, Option<MSeg>)], order: u8| -> Vec<MSeg> {
+        let mut v = vec![];
+        match order {
+            0 => ps.iter().for_each(|(a, b)| {
+                v.push(a.clone());
+                v.extend(b.clone());
+            }),
+            1 => ps.iter().for_each(|(a, b)| {
+                v.extend(b.clone());
+                v.push(a.clone());
+            }),
+            2 => {
+                // staler versions first, then the segments given once, then the fresher versions
+                v.extend(ps.iter().filter(|p| p.1.is_some()).map(|p| p.0.clone()));
+                v.extend(ps.iter().filter(|p| p.1.is_none()).map(|p| p.0.clone()));
+                v.extend(ps.iter().filter_map(|p| p.1.clone()));
+            }
+            _ => {
+                v.extend(ps.iter().filter_map(|p| p.1.clone()));
+                v.extend(ps.iter().filter(|p| p.1.is_none()).map(|p| p.0.clone()));
+                v.extend(ps.iter().filter(|p| p.1.is_some()).map(|p| p.0.clone()));
+            }
+        }
+        v
+    };
+    let mut out = vec![];
+    for (order, name) in [(0u8, "stale-first"), (1, "fresh-first"), (2, "stale-block-first"), (3, "fresh-block-first")] {
+        out.push(Case { kind: format!("rebeacon:{mode_name}+{name}"), cores: lay(&cores, order), noncores: lay(&noncores, order), ..base.clone() });
+    }
+    let mut sh = out[0].clone();
+    rng.shuffle(&mut sh.cores);
+    rng.shuffle(&mut sh.noncores);
+    sh.kind = format!("rebeacon:{mode_name}+shuffled");
+    out.push(sh);
+    out
+}
+
+/// shapes of the paths a set offers (for the quotas of the rebeacon stream)
+fn path_shapes(c: &Case, o: &ImplOut) -> BTreeSet<String> {
+    let is_core = |ia: u64| c.topo.as_ref().and_then(|t| t.idx(ia).map(|i| t.ases[i].core)).unwrap_or(false);
+    o.paths
+        .iter()
+        .map(|p| {
+            let peer = p.segs.iter().any(|s| s.peer);
+            match p.segs.len() {
+                1 if is_core(c.src) && is_core(c.dst) => "core-only".to_string(),
+                1 if !p.segs[0].cons => "up-only".to_string(),
+                1 => "down-only".to_string(),
+                2 if peer => "up+down over a peering link".to_string(),
+                2 => "two segments (up+down shortcut / up+core / core+down)".to_string(),
+                n => format!("up+core+down ({n} segments)"),
+            }
+        })
+        .collect()
+}
+
 fn soup(rng: &mut Rng) -> Case {
     let big = rng.chance(1, 3);
     let (n_seg, pool_n, max_ent) = if big { (rng.range(13, 40), rng.range(8, 14), 4) } else { (rng.range(0, 12), rng.range(2, 6), 6) };
@@ -1168,6 +1278,9 @@ struct Piece {
     to: Node,
     ifs: Vec<(u64, u16)>,
     ases: Vec<u64>,
+    /// earliest expiry of the hop fields the piece puts into the path (SCION: a hop field expires at the
+    /// timestamp of its segment + (ExpTime + 1) * 24 h / 256)
+    exp: u64,
 }
 /// all admissible uses of one segment (declarative: positions in the segment, not graph edges)
 fn pieces(s: &MSeg, core: bool) -> Vec<Piece> {
@@ -1193,38 +1306,54 @@ fn pieces(s: &MSeg, core: bool) -> Vec<Piece> {
         v
     };
     let ases = |c: usize| -> Vec<u64> { (c..l).rev().map(|i| s.ents[i].ia).collect() };
+    // the hop fields of ents[c..]; at a peering crossing the peer entry's hop field replaces that of ents[c]
+    let exp_of = |c: usize, peer: Option<&MPeer>| -> u64 {
+        (c..l)
+            .map(|i| {
+                let h = if i == c && peer.is_some() { &peer.unwrap().hop } else { &s.ents[i].hop };
+                (s.ts as u64 + exp_secs(h.exp)).min(u32::MAX as u64)
+            })
+            .min()
+            .unwrap_or(0)
+    };
     let leaf = s.ents[l - 1].ia;
     if core {
         if l >= 2 {
             let f = s.ents[0].ia;
             let v = up_ifs(0, None);
-            out.push(Piece { usage: Use::Core, nhops: l, from: Node::As(leaf), to: Node::As(f), ifs: v.clone(), ases: ases(0) });
-            out.push(Piece { usage: Use::Core, nhops: l, from: Node::As(f), to: Node::As(leaf), ifs: v.into_iter().rev().collect(), ases: ases(0).into_iter().rev().collect() });
+            out.push(Piece { usage: Use::Core, nhops: l, from: Node::As(leaf), to: Node::As(f), ifs: v.clone(), ases: ases(0), exp: exp_of(0, None) });
+            out.push(Piece { usage: Use::Core, nhops: l, from: Node::As(f), to: Node::As(leaf), ifs: v.into_iter().rev().collect(), ases: ases(0).into_iter().rev().collect(), exp: exp_of(0, None) });
         }
         return out;
     }
     for c in 0..l {
         if c < l - 1 {
             let v = up_ifs(c, None);
-            out.push(Piece { usage: Use::Up, nhops: l - c, from: Node::As(leaf), to: Node::As(s.ents[c].ia), ifs: v.clone(), ases: ases(c) });
-            out.push(Piece { usage: Use::Down, nhops: l - c, from: Node::As(s.ents[c].ia), to: Node::As(leaf), ifs: v.into_iter().rev().collect(), ases: ases(c).into_iter().rev().collect() });
+            out.push(Piece { usage: Use::Up, nhops: l - c, from: Node::As(leaf), to: Node::As(s.ents[c].ia), ifs: v.clone(), ases: ases(c), exp: exp_of(c, None) });
+            out.push(Piece { usage: Use::Down, nhops: l - c, from: Node::As(s.ents[c].ia), to: Node::As(leaf), ifs: v.into_iter().rev().collect(), ases: ases(c).into_iter().rev().collect(), exp: exp_of(c, None) });
         }
         for p in &s.ents[c].peers {
             let v = up_ifs(c, Some(p));
             let e = &s.ents[c];
-            out.push(Piece { usage: Use::Up, nhops: l - c, from: Node::As(leaf), to: Node::Link(e.ia, p.hop.ing, p.peer, p.pif), ifs: v.clone(), ases: ases(c) });
-            out.push(Piece { usage: Use::Down, nhops: l - c, from: Node::Link(p.peer, p.pif, e.ia, p.hop.ing), to: Node::As(leaf), ifs: v.into_iter().rev().collect(), ases: ases(c).into_iter().rev().collect() });
+            out.push(Piece { usage: Use::Up, nhops: l - c, from: Node::As(leaf), to: Node::Link(e.ia, p.hop.ing, p.peer, p.pif), ifs: v.clone(), ases: ases(c), exp: exp_of(c, Some(p)) });
+            out.push(Piece { usage: Use::Down, nhops: l - c, from: Node::Link(p.peer, p.pif, e.ia, p.hop.ing), to: Node::As(leaf), ifs: v.into_iter().rev().collect(), ases: ases(c).into_iter().rev().collect(), exp: exp_of(c, Some(p)) });
         }
     }
     out
 }
 /// interface lists of all loop-free, encodable end-to-end combinations (up?·core?·down? incl. shortcut, on-path,
 /// peering; a non-core segment is an up segment when travelled from its leaf, a down segment when travelled
-/// towards it, whatever src and dst are)
-fn enumerate_spec(c: &Case) -> BTreeSet<Vec<(u64, u16)>> {
-    let mut res = BTreeSet::new();
+/// towards it, whatever src and dst are), each with the latest expiry among the combinations that yield it (the
+/// expiry of a combination = the earliest expiry of its hop fields): "each once" - of several obtainable paths
+/// over one interface sequence the one that stays valid longest is the one to offer, whatever the input order
+fn enumerate_spec(c: &Case) -> BTreeMap<Vec<(u64, u16)>, u64> {
+    let mut res: BTreeMap<Vec<(u64, u16)>, u64> = BTreeMap::new();
+    let mut put = |ifs: Vec<(u64, u16)>, exp: u64| {
+        let e = res.entry(ifs).or_insert(exp);
+        *e = (*e).max(exp);
+    };
     if c.src == c.dst {
-        return res;
+        return BTreeMap::new();
     }
     let ps: Vec<Piece> = c.cores.iter().flat_map(|s| pieces(s, true)).chain(c.noncores.iter().flat_map(|s| pieces(s, false))).collect();
     // up? core? down?: the uses are strictly ordered Up < Core < Down (no segment after a down segment, no
@@ -1249,24 +1378,25 @@ fn enumerate_spec(c: &Case) -> BTreeSet<Vec<(u64, u16)>> {
     for a in ps.iter().filter(|p| p.from == src) {
         if a.to == dst {
             if loop_free(&[a]) {
-                res.insert(a.ifs.clone());
+                put(a.ifs.clone(), a.exp);
             }
             continue;
         }
         for b in ps.iter().filter(|p| p.from == a.to && kinds_ok(&[a.usage, p.usage])) {
             if b.to == dst {
                 if loop_free(&[a, b]) {
-                    res.insert(a.ifs.iter().chain(b.ifs.iter()).cloned().collect());
+                    put(a.ifs.iter().chain(b.ifs.iter()).cloned().collect(), a.exp.min(b.exp));
                 }
                 continue;
             }
             for d in ps.iter().filter(|p| p.from == b.to && p.to == dst && kinds_ok(&[a.usage, b.usage, p.usage])) {
                 if loop_free(&[a, b, d]) {
-                    res.insert(a.ifs.iter().chain(b.ifs.iter()).chain(d.ifs.iter()).cloned().collect());
+                    put(a.ifs.iter().chain(b.ifs.iter()).chain(d.ifs.iter()).cloned().collect(), a.exp.min(b.exp).min(d.exp));
                 }
             }
         }
     }
+    drop(put);
     res
 }
 
@@ -1385,13 +1515,30 @@ fn c04_spec(c: &Case, topo: Option<&Topo>, out: &[OPath], spec: &mut Vec<(String
         last_len = p.ifs.len();
     }
     // soundness / completeness against the independent enumerator
-    let want = enumerate_spec(c);
+    let best = enumerate_spec(c);
+    let want: BTreeSet<Vec<(u64, u16)>> = best.keys().cloned().collect();
     let got: BTreeSet<Vec<(u64, u16)>> = out.iter().map(|p| p.ifs.clone()).collect();
     if let Some(x) = got.difference(&want).next() {
         spec.push(("C04:sound".into(), format!("offered path {:?} is not a loop-free combination of the given segments", x)));
     }
     if let Some(x) = want.difference(&got).next() {
         spec.push(("C04:complete".into(), format!("combination {:?} is not offered", x)));
+    }
+    // "each once": the one path offered for an interface sequence is the obtainable one that expires latest
+    // (two beaconings of one segment, or two segments sharing a stretch, give the same interface sequence with
+    // different hop-field lifetimes); independent of the order in which the segments are listed
+    for (pi, p) in out.iter().enumerate() {
+        if let Some(b) = best.get(&p.ifs) {
+            let show = || p.ifs.iter().map(|(a, i)| format!("{}#{}", IsdAsn(*a), i)).collect::<Vec<_>>();
+            if p.exp < *b {
+                spec.push((
+                    "C04:dedup-keeps-latest-expiry".into(),
+                    format!("path {pi} over {:?} expires at {} but the given segments also yield this interface sequence with expiry {} ({} s later): a stale copy is offered although a fresher one is obtainable", show(), p.exp, b, b - p.exp),
+                ));
+            } else if p.exp > *b {
+                spec.push(("C04:expiry-obtainable".into(), format!("path {pi} over {:?} claims expiry {} but no combination of the given segments over this interface sequence is valid longer than {}", show(), p.exp, b)));
+            }
+        }
     }
 }
 
@@ -1407,6 +1554,18 @@ struct Outcome {
     spec: Vec<(String, String)>,
     micros: u128,
     panicked: bool,
+    /// sorted (interface list, expiry) of the offered paths: what must not depend on the input order even when
+    /// two given segments have the same id (hop fields / MTU of the survivor may then differ, see the known finding)
+    ifs_exp: Vec<(Vec<(u64, u16)>, u64)>,
+}
+
+fn ifs_exp_of(r: &Result<ImplOut, String>) -> Vec<(Vec<(u64, u16)>, u64)> {
+    let mut v: Vec<_> = r.as_ref().map(|o| o.paths.iter().map(|p| (p.ifs.clone(), p.exp)).collect()).unwrap_or_default();
+    v.sort();
+    v
+}
+fn show_ifs_exp(v: &[(Vec<(u64, u16)>, u64)]) -> Vec<String> {
+    v.iter().map(|(i, e)| format!("{} expiry {}", i.iter().map(|(a, x)| format!("{}#{}", IsdAsn(*a), x)).collect::<Vec<_>>().join(">"), e)).collect()
 }
 
 fn evaluate(c: &Case, lean: &mut Lean, prop: &str, time_limit_us: u128) -> Outcome {
@@ -1434,9 +1593,14 @@ fn evaluate(c: &Case, lean: &mut Lean, prop: &str, time_limit_us: u128) -> Outco
                 if m.panic || !m.raw.starts_with("ok") {
                     disagree = true;
                 } else if m.tie {
-                    // de-duplication key = interface list (field 4 of the canonical form)
-                    let a: BTreeSet<String> = o.paths.iter().map(|p| p.canon().split('|').nth(4).unwrap_or("").to_string()).collect();
-                    let b: BTreeSet<String> = m.paths.iter().map(|p| p.split('|').nth(4).unwrap_or("").to_string()).collect();
+                    // de-duplication key = interface list (field 4 of the canonical form); the survivor is a copy
+                    // with the latest expiry (field 3), whichever of the tied candidates came first
+                    let proj = |p: &str| {
+                        let f: Vec<&str> = p.split('|').collect();
+                        format!("{}|{}", f.get(3).unwrap_or(&""), f.get(4).unwrap_or(&""))
+                    };
+                    let a: BTreeSet<String> = o.paths.iter().map(|p| proj(&p.canon())).collect();
+                    let b: BTreeSet<String> = m.paths.iter().map(|p| proj(p)).collect();
                     disagree = a != b || o.paths.len() != m.paths.len();
                 } else {
                     let a: Vec<String> = o.paths.iter().map(|p| p.canon()).collect();
@@ -1448,7 +1612,51 @@ fn evaluate(c: &Case, lean: &mut Lean, prop: &str, time_limit_us: u128) -> Outco
             }
         }
     }
-    Outcome { imp, model: m.raw, disagree, tie: m.tie, cands: m.cands, n_paths, spec, micros, panicked: r.is_err() }
+    Outcome { imp, model: m.raw, disagree, tie: m.tie, cands: m.cands, n_paths, spec, micros, panicked: r.is_err(), ifs_exp: ifs_exp_of(&r) }
+}
+
+/// the segments of `t` listed in the order in which they occur in `order` (a permutation of a superset of `t`)
+fn in_order_of(order: &Case, t: &Case) -> Case {
+    let keep = |xs: &Vec<MSeg>, of: &Vec<MSeg>| -> Vec<MSeg> {
+        let mut left: Vec<&MSeg> = of.iter().collect();
+        xs.iter()
+            .filter(|s| match left.iter().position(|l| l == s) {
+                Some(k) => {
+                    left.remove(k);
+                    true
+                }
+                None => false,
+            })
+            .cloned()
+            .collect()
+    };
+    Case { cores: keep(&order.cores, &t.cores), noncores: keep(&order.noncores, &t.noncores), ..t.clone() }
+}
+
+/// drop whole segments while `fails` holds
+fn shrink_segments(c: &Case, fails: &mut dyn FnMut(&Case) -> bool) -> Case {
+    let mut cur = c.clone();
+    let mut budget = 300;
+    loop {
+        let mut progress = false;
+        for core in [true, false] {
+            let mut i = 0;
+            while i < (if core { cur.cores.len() } else { cur.noncores.len() }) && budget > 0 {
+                let mut t = cur.clone();
+                if core { t.cores.remove(i); } else { t.noncores.remove(i); }
+                budget -= 1;
+                if fails(&t) {
+                    cur = t;
+                    progress = true;
+                } else {
+                    i += 1;
+                }
+            }
+        }
+        if !progress || budget == 0 {
+            return cur;
+        }
+    }
 }
 
 /// greedy structural shrinking: drop segments, entries, peers while `fails` holds
@@ -1508,8 +1716,8 @@ fn shrink(c: &Case, fails: &mut dyn FnMut(&Case) -> bool) -> Case {
 
 fn case_json(c: &Case) -> serde_json::Value {
     let seg = |s: &MSeg| {
-        json!({"ts": s.ts, "segid": s.segid, "hops": s.ents.iter().map(|e| format!("{} {}>{}{}", IsdAsn(e.ia), e.hop.ing, e.hop.eg,
-            e.peers.iter().map(|p| format!(" peer[{}#{}<-#{}]", IsdAsn(p.peer), p.pif, p.hop.ing)).collect::<String>())).collect::<Vec<_>>()})
+        json!({"ts": s.ts, "segid": s.segid, "hops": s.ents.iter().map(|e| format!("{} {}>{} exp={}{}", IsdAsn(e.ia), e.hop.ing, e.hop.eg, e.hop.exp,
+            e.peers.iter().map(|p| format!(" peer[{}#{}<-#{} exp={}]", IsdAsn(p.peer), p.pif, p.hop.ing, p.hop.exp)).collect::<String>())).collect::<Vec<_>>()})
     };
     let line = c.line();
     json!({"kind": c.kind, "src": IsdAsn(c.src).to_string(), "dst": IsdAsn(c.dst).to_string(),
@@ -1548,7 +1756,10 @@ fn main() {
         "case = (src, dst, core segments, non-core segments) of a well-formed set derived from a topology (random cores + \
          parent/child DAG + peering links, or the repo's 20-AS test graph; beacons built by extending along links), all \
          src/dst pairs incl. on-segment and core endpoints, plus shuffled/duplicated variants and 'twin' sets (second version of a \
-         segment with the same hop interfaces but other peer entries / MTUs / timestamps / MACs). Non-trivial = at least one \
+         segment with the same hop interfaces but other peer entries / MTUs / timestamps / MACs) and 'rebeacon' sets (two beaconings of \
+         one segment: same ASes / interfaces / peer entries / MTUs, other timestamp, SegID, MACs, hop lifetimes; bases chosen per \
+         offered path shape up-only, down-only, core-only, two segments, peering, up+core+down; each in five orders: staler version \
+         directly before / after the fresher one, staler versions in front of / behind everything else, shuffled). Non-trivial = at least one \
          path offered; distinct by hash of the request line"
     };
     let mut rep = Report::new(&prop, rule);
@@ -1658,6 +1869,37 @@ fn main() {
                 }
             }
         }
+        // two beaconings of the same segment, staler version listed first / last / shuffled, for every path shape
+        {
+            let quota = args.scale(if prop == "C19" { 4 } else { 14 }, 400);
+            let mut used: BTreeMap<String, usize> = BTreeMap::new();
+            let mut idx: Vec<usize> = (0..valid.len()).collect();
+            rng.shuffle(&mut idx);
+            let mut looked = 0;
+            for i in idx {
+                let base = &valid[i];
+                if base.kind == "long" || base.cores.len() + base.noncores.len() > 40 {
+                    continue;
+                }
+                looked += 1;
+                if looked > args.scale(1200, 40000) {
+                    break;
+                }
+                let shapes = match run_impl(base) {
+                    Ok(o) => path_shapes(base, &o),
+                    Err(_) => continue,
+                };
+                let wanted: Vec<&String> = shapes.iter().filter(|s| used.get(*s).copied().unwrap_or(0) < quota).collect();
+                if wanted.is_empty() {
+                    continue;
+                }
+                for s in wanted {
+                    *used.entry(s.clone()).or_insert(0) += 1;
+                    rep.hit(&format!("rebeacon base offers: {s}"));
+                }
+                cases.extend(rebeacon(&mut rng, base));
+            }
+        }
         if prop == "C19" {
             let n_mut = args.scale(1500, 60000);
             let n_soup = args.scale(500, 20000);
@@ -1683,6 +1925,9 @@ fn main() {
     let mut max_us = 0u128;
     let mut max_cands = 0u64;
     let mut seen_spec: HashSet<String> = HashSet::new();
+    let mut n_order_exp = 0;
+    let mut n_group_fail = 0;
+    let mut group: Option<(String, Case, Vec<(Vec<(u64, u16)>, u64)>)> = None;
     for c in &cases {
         let o = evaluate(c, &mut lean, &prop, time_limit_us);
         let line = c.line();
@@ -1698,6 +1943,34 @@ fn main() {
         if let Some(m) = c.kind.strip_prefix("mut:") {
             for t in m.split('+') {
                 rep.hit(&format!("mutation {t}"));
+            }
+        }
+        if let Some(m) = c.kind.strip_prefix("rebeacon:") {
+            for t in m.split('+') {
+                rep.hit(&format!("rebeacon {t}"));
+            }
+            // the five orders of one base follow each other: same segments, same request
+            let mut segs: Vec<String> = c.cores.iter().map(|s| format!("c{s:?}")).chain(c.noncores.iter().map(|s| format!("n{s:?}"))).collect();
+            segs.sort();
+            let gkey = format!("{} {} {}", c.src, c.dst, segs.join(" "));
+            match &group {
+                Some((k, first, first_out)) if *k == gkey && !o.panicked => {
+                    rep.hit("rebeacon: order compared with the stale-first order of the same set");
+                    if *first_out != o.ifs_exp && n_group_fail < 3 {
+                        n_group_fail += 1;
+                        let order = c.clone();
+                        let mut f = |t: &Case| ifs_exp_of(&run_impl(t)) != ifs_exp_of(&run_impl(&in_order_of(&order, t)));
+                        let small = shrink_segments(first, &mut f);
+                        let sv = in_order_of(&order, &small);
+                        let (a, b) = (ifs_exp_of(&run_impl(&small)), ifs_exp_of(&run_impl(&sv)));
+                        rep.spec_fail(
+                            &format!("{prop}:order-independent:rebeaconed-segment"),
+                            "two beaconings of one segment (same ASes, interfaces, peer entries; other timestamp / lifetimes / MACs): which interface sequences are offered or how long they stay valid depends on which version is listed first",
+                            json!({"case": case_json(&small), "variant": case_json(&sv), "offered": show_ifs_exp(&a), "offered_variant": show_ifs_exp(&b)}),
+                        );
+                    }
+                }
+                _ => group = Some((gkey, c.clone(), o.ifs_exp.clone())),
             }
         }
         rep.hit(&format!("paths offered {}", match o.n_paths { 0 => "0", 1 => "1", 2..=5 => "2-5", 6..=20 => "6-20", _ => ">20" }));
@@ -1775,7 +2048,7 @@ fn main() {
         }
 
         // ---- order independence / determinism (both properties; exact equality) -------------------------
-        if args.replay.is_none() && !o.panicked && (prop == "C04" || rep.traces % 4 == 0) && !o.tie {
+        if args.replay.is_none() && !o.panicked && (prop == "C04" || rep.traces % 4 == 0) {
             let mut v = c.clone();
             rng.shuffle(&mut v.cores);
             rng.shuffle(&mut v.noncores);
@@ -1792,12 +2065,31 @@ fn main() {
                 v.cores.push(s);
                 dup = true;
             }
-            let r2 = impl_string(&run_impl(&v));
+            let rv = run_impl(&v);
+            let r2 = impl_string(&rv);
             rep.evaluations += 1;
             rep.hit(if dup { "variant shuffled+duplicated" } else { "variant shuffled" });
-            if r2 != o.imp {
-                let key = format!("{prop}:order-independent");
-                rep.spec_fail(&key, "permuting / duplicating the input segment lists changed the result", json!({"case": case_json(c), "variant": case_json(&v), "impl": o.imp, "impl_variant": r2}));
+            if !o.tie {
+                if r2 != o.imp {
+                    let key = format!("{prop}:order-independent");
+                    rep.spec_fail(&key, "permuting / duplicating the input segment lists changed the result", json!({"case": case_json(c), "variant": case_json(&v), "impl": o.imp, "impl_variant": r2}));
+                }
+            } else {
+                // two given segments have the same id: which of two equally long-lived copies survives is the known
+                // finding; which interface sequences are offered and how long each stays valid must still not
+                // depend on the order of the lists
+                rep.hit("variant of a set with equal segment ids (interface lists + expiry compared)");
+                let pv = ifs_exp_of(&rv);
+                if pv != o.ifs_exp && n_order_exp < 3 {
+                    n_order_exp += 1;
+                    let key = format!("{prop}:order-independent:latest-expiry");
+                    // the same pair of orders restricted to the segments that are left
+                    let mut f = |t: &Case| ifs_exp_of(&run_impl(t)) != ifs_exp_of(&run_impl(&in_order_of(&v, t)));
+                    let small = shrink_segments(c, &mut f);
+                    let sv = in_order_of(&v, &small);
+                    let (a, b) = (ifs_exp_of(&run_impl(&small)), ifs_exp_of(&run_impl(&sv)));
+                    rep.spec_fail(&key, "listing the same segments in another order changed which interface sequences are offered or how long they stay valid", json!({"case": case_json(&small), "variant": case_json(&sv), "offered": show_ifs_exp(&a), "offered_variant": show_ifs_exp(&b)}));
+                }
             }
         }
     }
